@@ -5,6 +5,8 @@
 From Coq Require Import ZArith List Bool.
 From RV Require Import Gen.SendSites.
 From RV Require Import Model.Gate.
+From RV Require Import Model.RtpLib.
+From RV Require Import Model.Rtcp.
 Import ListNotations.
 Open Scope Z_scope.
 
@@ -13,7 +15,10 @@ Inductive eobs : Set :=
 | D (k : sink) (p : Z)                    (* packet p reached sink k *)
 | R (ok : bool).                          (* the call returned Ok / Err *)
 
-Record case : Set := mkCase { k_ra : bool; k_rb : bool; k_ops : list op; k_obs : list (list eobs) }.
+(* k_da / k_db: datagram (UDP) or RFC 4571 TCP socket; k_raw: for every operation the bytes of the injected
+   datagram where the outcome depends on them (protected RTCP fed to the plain parser), [] elsewhere *)
+Record case : Set := mkCase { k_da : bool; k_db : bool; k_ra : bool; k_rb : bool; k_ops : list op;
+                              k_raw : list (list Z); k_obs : list (list eobs) }.
 
 Definition erase (o : out) : eobs :=
   match o with
@@ -47,13 +52,14 @@ Fixpoint list_eqb {A : Type} (f : A -> A -> bool) (x y : list A) : bool :=
   | _, _ => false
   end.
 
-(* protected RTCP bytes handed to the plain RTCP parser (no session, not required): whether they happen to
-   parse depends on the ciphertext; the property says nothing about that mode, the comparison skips the op *)
-Definition dontcare (s : st) (o : op) : bool :=
-  match o with
-  | RecvRtcp (Prot _ _ _) =>
-      match gate_recv_rtcp (has (a s)) (required (a s)) with RPlain => true | _ => false end
-  | _ => false
+(* protected RTCP bytes handed to the plain RTCP parser (no session, not required -- see
+   C14_plain_rtcp_only_unprotected_mode): whether the RTCP listener gets something is decided by the byte-level
+   model of parse_rtcp_packets (Model/Rtcp.v, C15) on the injected bytes; the packet id inside is ciphertext *)
+Definition plain_rtcp_expect (s : st) (raw : list Z) (x : list eobs) : bool :=
+  match parse_rtcp raw with
+  | Ok _ => if closed s then match x with [] => true | _ => false end
+            else match x with [D SRtcpListener _] => true | _ => false end
+  | _ => match x with [] => true | _ => false end
   end.
 
 Fixpoint model_trace (s : st) (ops : list op) : list (list eobs) :=
@@ -62,17 +68,20 @@ Fixpoint model_trace (s : st) (ops : list op) : list (list eobs) :=
   | o :: r => map erase (snd (step s o)) :: model_trace (fst (step s o)) r
   end.
 
-Definition model_out (c : case) : list (list eobs) := model_trace (init (k_ra c) (k_rb c)) (k_ops c).
+Definition start (c : case) : st := init_on (k_da c) (k_db c) (k_ra c) (k_rb c).
+Definition model_out (c : case) : list (list eobs) := model_trace (start c) (k_ops c).
 
-Fixpoint agree (s : st) (ops : list op) (obs : list (list eobs)) : bool :=
-  match ops, obs with
-  | [], [] => true
-  | o :: r, x :: obs' =>
-      (dontcare s o || list_eqb eobs_eqb (map erase (snd (step s o))) x) && agree (fst (step s o)) r obs'
-  | _, _ => false
+Fixpoint agree (s : st) (ops : list op) (raws : list (list Z)) (obs : list (list eobs)) : bool :=
+  match ops, raws, obs with
+  | [], [], [] => true
+  | o :: r, raw :: raws', x :: obs' =>
+      (if plain_rtcp_path s o then plain_rtcp_expect s raw x
+       else list_eqb eobs_eqb (map erase (snd (step s o))) x)
+      && agree (fst (step s o)) r raws' obs'
+  | _, _, _ => false
   end.
 
-Definition check_case (c : case) : bool := agree (init (k_ra c) (k_rb c)) (k_ops c) (k_obs c).
+Definition check_case (c : case) : bool := agree (start c) (k_ops c) (k_raw c) (k_obs c).
 
 Fixpoint bad_from (i : Z) (cs : list case) : list Z :=
   match cs with
